@@ -231,6 +231,9 @@ def san_lines(sources, per_mod_cap):
         by.setdefault(name, []).append(l)
     out = []
     for name, ls in by.items():
+        if not (name[:1] == 'c' and name[1:].isdigit()):
+            out += ls[:per_mod_cap]          # C20's own extra lines (no owning module): all of them
+            continue
         mod = R.load_prop(name)
         sub = mod.san_subset(ls) if hasattr(mod, 'san_subset') else []
         out += sub[:per_mod_cap]
@@ -255,6 +258,15 @@ def run(tier, seed, replay=None):
         if thorough:
             for extra_seed in (seed + 1000, seed + 2000):
                 sources += [s for s in collect_sources(tier, extra_seed) if s[0] in ('c02', 'c03', 'c04', 'c05', 'c09', 'c15', 'c18')]
+        # parameter values the API accepts (Ok) although they lie outside what the specification-conformance checks claim: whatever the
+        # library makes of them, it must be the same bytes in every profile and must not panic (Argon2 memory below 8 blocks per lane
+        # is documented as silently raised)
+        for ty in ('d', 'i', 'id'):
+            for m, p_ in ((1, 1), (7, 1), (8, 2), (15, 2), (16, 4), (31, 4), (4, 4), (20, 3), (0, 1)):
+                for order in ('at', 'arr'):
+                    sources.append(('c20-accepted-params', 'argon2 %s 0x13 %d %d %d 32 %s %s - - %s #accepted/argon2-m<8p' % (ty, rng.rng(1, 2), m, p_, rng.data(8), rng.data(8), order)))
+            sources.append(('c20-accepted-params', 'argon2b %s 32 %s %s - - at m=16 p=4 #accepted/argon2-m<8p' % (ty, rng.data(8), rng.data(8))))
+            sources.append(('c20-accepted-params', 'argon2b %s 32 %s %s - - at p=4 m=16 t=2 #accepted/argon2-m<8p' % (ty, rng.data(8), rng.data(8))))
         counters = list(counter_cases(rng, thorough))
         refusals = refusal_cases(rng)
     # every refusal probe is executed twice
@@ -292,6 +304,8 @@ def run(tier, seed, replay=None):
                 fam = l.split()[0]
                 sig = 'C20:blake2-counter:profile-divergence' if src == 'counter' else 'C20:%s:%s:%s' % (src, fam, kind)
                 rep.violations.append((c, i, sig, 'rel: %s | %s: %s' % (' '.join(a or ['<none>'])[:80], c, ' '.join(b or ['<none>'])[:80]), l, b))
+        if i < n_src and sources[i][0] == 'c20-accepted-params' and (not a or 'PANIC' in a):
+            rep.violations.append(('rel', i, 'C20:accepted-params:%s:panic' % l.split()[0], 'parameters accepted by the builder, then the operation panicked: %s' % ' '.join(a or ['<none>'])[:80], l, a))
     # (a') the same comparison at volume: bulk lines (cxv/bulk.py) - millions of curve / field / scalar / Poly1305 calls on derived inputs; an
     # arithmetic overflow that only the checked profiles trap, or a debug assertion on a legitimate value, shows as PANIC or as a different block hash
     from .. import bulk as B
